@@ -78,6 +78,11 @@ pub fn c12(tier: &str) -> ! {
     for m in machinery {
         rep.machinery.push(m);
     }
+    // damaged fragments of multi-fragment records: nothing that was not appended is ever returned
+    for c in log_corruption_cases() {
+        log_corruption_case(&c, &shm, "C12.record_not_appended");
+    }
+    rep.cov("corrupted_fragment_reads", json!(shm.get(C_USER + 4)));
     if shm.get(C_MACHINERY) > 0 {
         rep.machinery.push(format!("{} jobs died", shm.get(C_MACHINERY)));
     }
